@@ -199,4 +199,10 @@ def rule_cli(ctx):
            "the client's waiting ABOR does not expect 226 while waiting through 426", construct="abort:masks")
 
 
-RULES = [rule_outer, rule_abor, rule_done, rule_close, rule_exit, rule_shield, rule_cli]
+def rule_last(ctx):
+    from .c01 import rule_ack
+    ctx.rule("C14.LAST", "the completion reply is the last thing a transfer worker does: an ABOR arriving after it finds no worker still closing files (else the client gets 226, then 426 and 226; shared with C01.ACK)")
+    ctx.borrow(rule_ack, {"C01.ACK": "C14.LAST"})
+
+
+RULES = [rule_outer, rule_abor, rule_done, rule_close, rule_exit, rule_shield, rule_cli, rule_last]
